@@ -204,9 +204,11 @@ func (rn *c20Runner) expect(c c20Case, res c20Result) (what string, ok bool) {
 		case "strip":
 			return "file at <out>/<last segment>", res.err == nil && has(last, h.artBlob)
 		case "unpack":
-			return "unpacked under <out>/<title>/", res.err == nil && has(c.In+"/in.txt", []byte("unpacked\n")) && has(c.In+"/sub/in2.txt", nil)
+			// the layer's tar also carries a hostile entry after in.txt: relocating it and refusing it
+			// (with an error) are both fine, so only the entry that precedes it is demanded
+			return "unpacked under <out>/<title>/", has(c.In+"/in.txt", []byte("unpacked\n"))
 		case "strip+unpack":
-			return "unpacked under <out>/", res.err == nil && has("in.txt", []byte("unpacked\n"))
+			return "unpacked under <out>/", has("in.txt", []byte("unpacked\n"))
 		}
 	case "ii":
 		if !c20NameBenign(c.In) {
@@ -506,7 +508,7 @@ func TestVerifC20(t *testing.T) {
 	rec := ev.New()
 	defer rec.Flush(t)
 	debug.SetGCPercent(400)
-	rec.Rule("names = lead+seg/…/seg+trail over segments {.., ., empty, plain, 'with space', 255-byte, embedded NUL, existing file, existing dir}, 0..3 segments (quick) / 0..4 (thorough), lead in {'', '/'}, trail in {'', '/', '//'}, duplicates dropped; " +
+	rec.Rule("names = lead+seg/…/seg+trail over segments {.., ., empty, plain, 'with space', 255-byte, embedded NUL, existing file, existing dir, a name that has the designated directory's own name as a prefix}, 0..3 segments (quick) / 0..4 (thorough), lead in {'', '/'}, trail in {'', '/', '//'}, duplicates dropped; " +
 		"digests = 'sha256:'+name for every name, name+':'+hex for every name of up to 2 (quick) / 3 (thorough) segments, plus a fixed list of specials; every string is run through every variant of route i (regctl artifact get --output, in process: title ± --strip-dirs ± unpack annotation, digest-as-name), " +
 		"ii (archive.Extract: regular/dir entry names, symlink+hardlink entries with the string as target or as name followed by a file through the link), iii (ImageImport of OCI layout tars into an ocidir inside the directory and into an in-memory registry: extra entries, blobs behind links, hostile digests in index/manifest/reference) and " +
 		"iv (24 ocidir operations through RegClient with the string as descriptor digest, reference digest, subject digest, index.json entry or tag). One evaluation = one (route, variant, string) executed on the real code and judged by the guard listing. " +
